@@ -27,7 +27,7 @@ ASSUMPTIONS = [
     "only the state afterwards (clean) and the other stages' outputs",
     "what a second deactivation returns or raises is not asserted; it must publish nothing and leave the state clean",
 ]
-BOUNDS = {"quick": {"depth": 6, "stages": 2, "stale_stages": 1}, "thorough": {"depth": 7, "stages": 3, "stale_stages": 2, "merge_audit_depth": 3}}
+BOUNDS = {"quick": {"depth": 6, "stages": 2, "stale_stages": 1}, "thorough": {"depth": 7, "stages": 3, "stale_stages": 1, "merge_audit_depth": 2}}
 
 SRC = '''
 def f(x):
